@@ -150,6 +150,33 @@ let exec (s : t) (verbose : bool) (f : string array) (obs : string option) : str
         | (OpenOk (d', _), _) -> "ok " ^ d1 ^ " / " ^ dump_of d'
         | (OpenErr (e, _), _) -> "ok " ^ d1 ^ " / err " ^ eerr_name e)
      | (OpenErr (e, _), _) -> "err " ^ eerr_name e)
+  | "crashmerge" ->
+    (* E crashmerge <k> none <cfg 6 fields> <key>: open the crash image, delete <key>, Merge (scan order
+       observed), close, open, dump, close, open, dump *)
+    let k = int_of_string f.(2) in
+    let c = { c_fsize = n_of_string f.(4); c_sync = n_of_string f.(5); c_bps = n_of_string f.(6);
+              c_io = n_of_string f.(7) } in
+    let evs = List.rev s.all_events in
+    recorder := (fun _ -> ());
+    let o = match obs with Some o -> obs_head o | None -> "" in
+    let order_s = match split_first o "order" with (_, r) ->
+      (match String.split_on_char ' ' (String.trim r) with x :: _ -> x | [] -> "") in
+    let order = if order_s = "" then [] else List.map n_of_string (String.split_on_char ',' order_s) in
+    (match crash_open c evs (nat_of_int k) CutNone with
+     | (OpenOk (d, kd), _) ->
+       let d = if f.(10) = "-" then d else (let ((d, _), _) = db_delete d (tok_bytes f.(10)) in d) in
+       let (((d, kd), e), _) = db_merge d kd order in
+       let (k2, _) = db_close d kd in
+       let res = (match e with None -> "ok" | Some e -> "err " ^ eerr_name e) ^ " order " ^ order_s in
+       (match db_open c k2 with
+        | (OpenOk (d1, k3), _) ->
+          let r1 = dump_of d1 in
+          let (k4, _) = db_close d1 k3 in
+          (match db_open c k4 with
+           | (OpenOk (d2, _), _) -> res ^ " " ^ r1 ^ " " ^ dump_of d2
+           | (OpenErr (e, _), _) -> res ^ " " ^ r1 ^ " err " ^ eerr_name e)
+        | (OpenErr (e, _), _) -> res ^ " err " ^ eerr_name e)
+     | (OpenErr (e, _), _) -> "err " ^ eerr_name e)
   | "crashcont" ->
     (* E crashcont <k> <cut> <cfg 6 fields> <key> <val>: the crash image is opened, one batch
        (its id observed from the implementation) writes <key> and commits, then close, open, dump *)
